@@ -204,7 +204,34 @@ class C10Bounded(Bounded):
                             fail("history", f"correlation rule {d['title']} {how} on one backend in the order {[x['title'] for x in perm]} gives {q!r}, alone on a fresh backend {alone[d['name']]!r}", [[x["title"] for x in perm], d["title"], how])
         except SigmaError as e:
             fail("history-error", f"several correlation rules on one backend: {type(e).__name__}: {e}", ["multi"])
+        # the timespan in seconds (rendered by backends that express windows in seconds): count x unit length, exact integers - the mean
+        # Gregorian month is 2629746 s (30.436875 d), the year 31556952 s (365.2425 d)
+        from sigma.correlations import SigmaCorrelationTimespan
+        UNIT = {"s": 1, "m": 60, "h": 3600, "d": 86400, "w": 604800, "M": 2629746, "y": 31556952}
+
+        class SecB(TextQueryTestBackend):
+            timespan_seconds = True
+        for unit, n in itertools.product(UNIT, list(range(0, 401)) + [999, 1000, 4096, 10 ** 6 + 1]):
+            ev_n += 1
+            nontriv += 1
+            try:
+                ts = SigmaCorrelationTimespan(f"{n}{unit}")
+                got = (ts.seconds, ts.count, ts.unit, type(ts.seconds).__name__)
+            except SigmaError as e:
+                got = type(e).__name__
+            if got != (n * UNIT[unit], n, unit, "int"):
+                fail("timespan-seconds", f"timespan {n}{unit}: (seconds, count, unit, type) = {got}, expected {(n * UNIT[unit], n, unit, 'int')}", [f"{n}{unit}"])
+        for spec in ("5M", "10M", "45y", "3w"):
+            ev_n += 1
+            nontriv += 1
+            n, unit = int(spec[:-1]), spec[-1]
+            try:
+                q = SecB().convert(SigmaCollection.from_dicts([copy.deepcopy(BASE[next(iter(BASE))]), {"title": "c", "correlation": {"type": "event_count", "rules": [BASE[next(iter(BASE))]["name"]], "timespan": spec, "condition": {"gte": 2}}}]))
+                if str(n * UNIT[unit]) not in str(q[-1]) or (unit in "My" and str(n * UNIT[unit] - 1) in str(q[-1])):
+                    fail("timespan-seconds-query", f"backend rendering windows in seconds, timespan {spec}: query {q[-1]!r} does not carry {n * UNIT[unit]}", [spec])
+            except Exception as e:
+                fail("timespan-seconds-query", f"backend rendering windows in seconds, timespan {spec}: {type(e).__name__}: {e}", [spec])
         return {"evaluations": ev_n, "distinct_nontrivial": nontriv, "failures": fails[:20], "failure_counts": seen,
-                "bound": f"all 24 orders of 4 correlation rules with different aliases over the same referenced rules on one backend object; {len(docs)} correlation rules: 8 types x rule lists (1..3 rules, referenced by name and by id, single and multi-query rules) x group-by (none, 1, 2 fields incl. one needing quotes) x 4 timespan units x 6 operators "
+                "bound": f"timespans 0..400 (and four larger counts) x 7 units in seconds; all 24 orders of 4 correlation rules with different aliases over the same referenced rules on one backend object; {len(docs)} correlation rules: 8 types x rule lists (1..3 rules, referenced by name and by id, single and multi-query rules) x group-by (none, 1, 2 fields incl. one needing quotes) x 4 timespan units x 6 operators "
                          f"(counts incl. 0) x aliases; 16 extended conditions x 2 group-by settings compared as boolean functions",
                 "rule": "distinct correlation rules; non-trivial = converted", "samples": samples, "exhaustive": True}
